@@ -89,10 +89,13 @@ class BaseFiles(Generic[Interface]):
         if if_none_match == "*":
             return True
 
-        if if_none_match.startswith("W/"):
-            if_none_match = if_none_match[2:]
-
-        return any(etag == i.strip().strip('"') for i in if_none_match.split(","))
+        for tag in if_none_match.split(","):
+            tag = tag.strip()
+            if tag.startswith("W/"):  # weak comparison: ignore the weakness flag
+                tag = tag[2:]
+            if etag == tag.strip('"'):
+                return True
+        return False
 
     def if_modified_since(self, last_modified: float, if_modified_since: str) -> bool:
         try:
